@@ -1,6 +1,7 @@
 //@ tu: common/common_ctl.c libxcmctl/xcmc.c
 //@ defs: -DUT_STD_ASSERT -DXVU_STRCPY64
 //@ enforce: xcmc_attr_get
+//@ flags: --no-array-field-sensitivity
 //@ props: C14
 //@ expect: postcondition>=9 canary=8
 //@ timeout: 900
